@@ -35,7 +35,7 @@ RULE = ("loopback: 1..3 TcpClientStack connected to one TcpServerStack on epheme
         "5) calls on the client stack, scripted partial sends and chunked receives on the server stack; distinct = "
         "distinct (topology, packet lengths, schedule); non-trivial = bytes were carried in both directions and at "
         "least one send was partial (loopback) / the script has a non-full result (doubles)")
-RULE = __import__("vf.core", fromlist=["rule_add"]).rule_add(RULE, "also packets built in a reused scratch buffer, packets of 0 bytes, one Packet object queued for several peers, a client's last packets then its close (farewell), the server's last packets then its close met by the client in one pass, a second life of the client stack after reopen, and packets queued behind one for a peer that has left")
+RULE = __import__("vf.core", fromlist=["rule_add"]).rule_add(RULE, "also packets built in a reused scratch buffer, packets of 0 bytes, one Packet object queued for several peers, a client's last packets then its close (farewell), the server's last packets then its close met by the client in one pass, a second life of the client stack after reopen, and packets queued behind one for a peer that has left (verdict where the stack hands the bytes to the socket)")
 META = {"engine": "D loopback + doubles", "technique": "byte and packet conservation per connection with unique packet ids",
         "level_text": "generated schedules over real loopback sockets plus enumerated partial-send scripts on doubles",
         "level_note": "loopback TCP delivers what was accepted; only the executions produced are covered"}
